@@ -220,8 +220,9 @@ Definition add_conds (k : ckind) (conds : list val) : list val :=
          end
   end.
 
+(* further column names given to Select are Go strings in identifier position (VQStr) *)
 Definition is_str_arg (v : val) : option string :=
-  match v with VS (SStr s) => Some s | VQStr s => Some s | _ => None end.
+  match v with VQStr s => Some s | _ => None end.
 Fixpoint all_str_args (l : list val) : option (list string) :=
   match l with
   | [] => Some []
